@@ -132,7 +132,7 @@ func ToCommandLine(wf WireFormat, resolveIds bool) (rule string, err error) {
 	// Detect if rule is a watch.
 	// Must have all syscalls and perm field. Only other valid fields are
 	// dir, path and key, according to auditctl source
-	if permIdx, ok := existingFields[permField]; r.allSyscalls && ok {
+	if permIdx, ok := existingFields[permField]; r.allSyscalls && ok && r.isWatch() {
 		extraFields, pos := false, 0
 		var path, key string
 	loop:
@@ -327,6 +327,33 @@ func ToCommandLine(wf WireFormat, resolveIds bool) (rule string, err error) {
 	}
 
 	return strings.Join(arguments, " "), nil
+}
+
+// isWatch reports whether the rule is exactly what a -w rule encodes: an
+// always,exit rule with one path or dir field followed by perm and an optional
+// key, all using the equal operator, with strings that survive the -w syntax.
+func (r *ruleData) isWatch() bool {
+	if r.flags != exitFilter || r.action != alwaysAction {
+		return false
+	}
+	if n := len(r.fields); n < 2 || n > 3 {
+		return false
+	}
+	for _, op := range r.fieldFlags {
+		if op != equalOperator {
+			return false
+		}
+	}
+	if r.fields[0] != pathField && r.fields[0] != dirField {
+		return false
+	}
+	if r.fields[1] != permField || len(r.strings) == 0 {
+		return false
+	}
+	if len(r.fields) == 3 && (r.fields[2] != keyField || len(r.strings) < 2 || strings.Contains(r.strings[1], ",")) {
+		return false
+	}
+	return true
 }
 
 func addFileWatch(data *ruleData, rule *FileWatchRule) error {
